@@ -138,6 +138,15 @@ func (mt *MoreThuente) Iterate(f, g float64) (Operation, float64, error) {
 	gTest := mt.DecreaseFactor * mt.gInit
 	fTest := mt.fInit + mt.step*gTest
 
+	// Test for convergence. As in dcsrch of MINPACK-2 a step that
+	// satisfies the conditions is accepted even if it is also the
+	// occasion of one of the warnings below, e.g. when it lies at
+	// MaximumStep.
+	if f <= fTest && math.Abs(g) <= mt.CurvatureFactor*(-mt.gInit) {
+		mt.stage = 0
+		return MajorIteration, mt.step, nil
+	}
+
 	if mt.bracketed {
 		if mt.step <= mt.lower || mt.step >= mt.upper || mt.upper-mt.lower <= mt.StepTolerance*mt.upper {
 			// step contains the best step found (see below).
@@ -155,12 +164,6 @@ func (mt *MoreThuente) Iterate(f, g float64) (Operation, float64, error) {
 	}
 	if mt.step == mt.MinimumStep && (f > fTest || g >= gTest) {
 		return NoOperation, mt.step, ErrLinesearcherFailure
-	}
-
-	// Test for convergence.
-	if f <= fTest && math.Abs(g) <= mt.CurvatureFactor*(-mt.gInit) {
-		mt.stage = 0
-		return MajorIteration, mt.step, nil
 	}
 
 	if mt.stage == 1 && f <= fTest && g >= 0 {
